@@ -2,8 +2,10 @@
   Witnesses for C01 / C02 / C12: concrete compiled programs (the trees the real compiler dumps for the
   sources quoted in the doc comments; each is also a replay case in corpus/C01|C02|C12/known.case,
   where the check re-observes the failure on the real implementation) on which the full-strength
-  statements fail in the model, one per finding class of the type inference; and non-vacuity
-  examples for the hypotheses of the `_partial` theorems. All by kernel `decide`.
+  statements fail in the model, one per finding class of the type inference; `fixed_…` theorems for
+  the classes repaired in the implementation (the old counterexample, now inside the reported types
+  or typed fallible; replays in corpus/…/fixed.case); and non-vacuity examples for the hypotheses of
+  the `_partial` theorems. All by kernel `decide`.
 -/
 import VrlProofs.Props.C01
 import VrlProofs.Props.C02
@@ -25,7 +27,7 @@ theorem conforms_st (ev : Value) (h1 : mem ev anyObj = true) (h2 : ev.Sorted = t
     (by show mem (.obj .nil) anyObj = true; decide), (by show (Value.obj .nil).Sorted = true; decide),
     (by intro n v h; simp [st, St.getVar] at h)⟩
 
-/-- D_del_typing: `del(x.a)` leaves type and constant of `x`
+/-- D_del_typing on a variable (fixed, 6af54e3): `del(x.a)` left type and constant of `x`
 ```
 x = {"a": 5}
 del(x.a)
@@ -36,7 +38,7 @@ def delVar : Exprs :=
 
 def delVarEv : Value := (.obj .nil)
 
-/-- D_del_typing: the value of `x` after `del(x.a)`
+/-- D_del_typing on a variable (fixed, 6af54e3): the value of `x` after `del(x.a)`
 ```
 x = {"a": 5}
 del(x.a)
@@ -46,6 +48,28 @@ def delVarValue : Exprs :=
   (.cons (.asg (.internal "x" []) (.obj (.cons [97] (.lit (.int 5)) .nil))) (.cons (.delVar "x" [.field [97]] false .noop) (.cons (.var "x") .nil)))
 
 def delVarValueEv : Value := (.obj .nil)
+
+/-- D_del_typing (what is left of it: `Kind::remove` outside the C19 theorem, here C19 `D_remove_shift`)
+```
+x = [1, "s", true]
+del(x[0])
+x
+``` -/
+def delShift : Exprs :=
+  (.cons (.asg (.internal "x" []) (.arr (.cons (.lit (.int 1)) (.cons (.lit (.bytes [115])) (.cons (.lit (.bool true)) .nil))))) (.cons (.delVar "x" [.index 0] false .noop) (.cons (.var "x") .nil)))
+
+def delShiftEv : Value := (.obj .nil)
+
+/-- D_del_typing: an element the shifted kind misplaces
+```
+x = [1, "s", 2]
+del(x[0])
+x[2] + 1
+``` -/
+def delShiftAdd : Exprs :=
+  (.cons (.asg (.internal "x" []) (.arr (.cons (.lit (.int 1)) (.cons (.lit (.bytes [115])) (.cons (.lit (.int 2)) .nil))))) (.cons (.delVar "x" [.index 0] false .noop) (.cons (.op .add (.qvar "x" [.index 2]) (.lit (.int 1))) .nil)))
+
+def delShiftAddEv : Value := (.obj .nil)
 
 /-- D_short_circuit_defines_var
 ```
@@ -79,7 +103,7 @@ def errPartialIasg : Exprs :=
 
 def errPartialIasgEv : Value := (.obj (.cons [110] (.int 0) .nil))
 
-/-- D_div_typing: the state changes of the divisor are not applied
+/-- D_div_typing (fixed, a408080): the state changes of the divisor are not applied
 ```
 x = "s"
 (5 / (x = 2) ?? 0)
@@ -90,7 +114,7 @@ def divRhs : Exprs :=
 
 def divRhsEv : Value := (.obj .nil)
 
-/-- D_div_typing: the fallibility of the dividend is dropped
+/-- D_div_typing (fixed, a408080): the fallibility of the dividend is dropped
 ```
 ((1 / .n) / 2)
 ``` -/
@@ -99,7 +123,7 @@ def divLhs : Exprs :=
 
 def divLhsEv : Value := (.obj (.cons [110] (.int 0) .nil))
 
-/-- D_div_typing: the `returns` of the dividend are dropped
+/-- D_div_typing (fixed, a408080): the `returns` of the dividend are dropped
 ```
 ({ if .a == 1 { return "x" }; 2 } / 2)
 ``` -/
@@ -108,7 +132,7 @@ def divReturns : Exprs :=
 
 def divReturnsEv : Value := (.obj (.cons [97] (.int 1) .nil))
 
-/-- D_short_circuit_const_lhs: `true && e` is not `fallible_unless(null|boolean)`
+/-- D_short_circuit_const_lhs (fixed, fcfb238): `true && e` was not `fallible_unless(null|boolean)`
 ```
 true && .a
 ``` -/
@@ -117,7 +141,7 @@ def andTrue : Exprs :=
 
 def andTrueEv : Value := (.obj (.cons [97] (.int 5) .nil))
 
-/-- D_short_circuit_const_lhs: an always-false lhs drops its fallibility
+/-- D_short_circuit_const_lhs (fixed, fcfb238): an always-false lhs dropped its fallibility
 ```
 ({ 1 / .n; null } && true)
 ``` -/
@@ -137,7 +161,7 @@ def scopeLeak : Exprs :=
 
 def scopeLeakEv : Value := (.obj .nil)
 
-/-- D_return_drops_returns
+/-- D_return_drops_returns (fixed, 7b68306)
 ```
 return { if .a == 1 { return 1 }; "s" }
 ``` -/
@@ -233,9 +257,21 @@ def resultKind (prog : Exprs) : Kind := (typeSeq prog T0 {}).1.finish.kind
 def returnsKind (prog : Exprs) : Kind := (typeSeq prog T0 {}).1.finish.returns
 
 set_option maxRecDepth 100000 in
-/-- `D_del_typing`: after `del(x.a)` the variable holds `{}`, typed `{a: integer}` -/
+/-- fixed (`D_del_typing`, variables; 6af54e3): after `del(x.a)` the variable holds `{}`; it was typed
+    `{a: integer}`, `DelFn::type_info` now removes the path from the variable's type -/
+theorem fixed_del_value :
+    outcome delVarValue delVarValueEv = .ok (.obj .nil) ∧ memR (.obj .nil) (resultKind delVarValue) = true ∧
+    safeSeq delVarValue T0 = true := by
+  decide
+
+set_option maxRecDepth 100000 in
+/-- `D_del_typing` (remaining): `del(x[0])` on `[1, "s", true]` leaves `["s", true]`; `Kind::remove` shifts
+    the known indices wrongly (C19 `D_remove_shift`: `{0: bytes, 2: boolean}`), so the variable is outside
+    its re-inserted type. The side condition `delPathOk` excludes it. -/
 theorem witness_del_value :
-    outcome delVarValue delVarValueEv = .ok (.obj .nil) ∧ memR (.obj .nil) (resultKind delVarValue) = false := by
+    outcome delShift delShiftEv = .ok (.arr (.cons (.bytes [115]) (.cons (.bool true) .nil))) ∧
+    memR (.arr (.cons (.bytes [115]) (.cons (.bool true) .nil))) (resultKind delShift) = false ∧
+    safeSeq delShift T0 = false := by
   decide
 
 set_option maxRecDepth 100000 in
@@ -254,15 +290,19 @@ theorem witness_neg_index :
   decide
 
 set_option maxRecDepth 100000 in
-/-- `D_div_typing`: `/` drops what its dividend may `return` -/
-theorem witness_div_returns :
-    outcome divReturns divReturnsEv = .ret (.bytes [120]) ∧ memR (.bytes [120]) (returnsKind divReturns) = false := by
+/-- fixed (`D_div_typing`; a408080): `/` dropped what its dividend may `return`; it now unions the
+    type definitions of both operands -/
+theorem fixed_div_returns :
+    outcome divReturns divReturnsEv = .ret (.bytes [120]) ∧ memR (.bytes [120]) (returnsKind divReturns) = true ∧
+    safeSeq divReturns T0 = true := by
   decide
 
 set_option maxRecDepth 100000 in
-/-- `D_return_drops_returns`: `return e` reports the kind of `e`, not what `e` itself may `return` -/
-theorem witness_return_drops :
-    outcome retDrops retDropsEv = .ret (.int 1) ∧ memR (.int 1) (returnsKind retDrops) = false := by
+/-- fixed (`D_return_drops_returns`; 7b68306): `return e` reported the kind of `e` only; it now also
+    reports what `e` itself may `return` -/
+theorem fixed_return_drops :
+    outcome retDrops retDropsEv = .ret (.int 1) ∧ memR (.int 1) (returnsKind retDrops) = true ∧
+    safeSeq retDrops T0 = true := by
   decide
 
 set_option maxRecDepth 100000 in
